@@ -160,13 +160,20 @@ def r2_format_taint(R) -> None:
             if v is None:
                 verdicts.append(('unknown', f'`{name}` is bound by `{sn.label()[:50]}`'))
                 continue
-            # re.sub(const, const-without-braces, <name>)
-            if is_call(v, 're.sub') and len(v.args) == 3 and isinstance(v.args[1], ast.Constant) and isinstance(v.args[2], ast.Name):
-                if '{' in str(v.args[1].value) or '}' in str(v.args[1].value):
-                    verdicts.append(('tainted', f're.sub replacement `{v.args[1].value}` introduces braces'))
-                else:
-                    verdicts.append(judge_name(site, v.args[2].id, depth + 1))
-                continue
+            # re.sub(const, const-without-braces, <name>), possibly nested (a helper that applies several, read through)
+            v = f._inline_pure_calls(v)
+            if is_call(v, 're.sub') and len(v.args) == 3:
+                cur_, bad_rep = v, None
+                while is_call(cur_, 're.sub') and len(cur_.args) == 3 and isinstance(cur_.args[1], ast.Constant):
+                    if '{' in str(cur_.args[1].value) or '}' in str(cur_.args[1].value):
+                        bad_rep = cur_.args[1].value
+                    cur_ = cur_.args[2]
+                if isinstance(cur_, ast.Name):
+                    if bad_rep is not None:
+                        verdicts.append(('tainted', f're.sub replacement `{bad_rep}` introduces braces'))
+                    else:
+                        verdicts.append(judge_name(site, cur_.id, depth + 1))
+                    continue
             # ''.join(pieces)
             if method_call(v, 'join') and isinstance(v.func.value, ast.Constant) and len(v.args) == 1 and isinstance(v.args[0], ast.Name):
                 lst = v.args[0].id
@@ -225,6 +232,17 @@ def r2_format_taint(R) -> None:
 
 
 # ---------------------------------------------------------------------------
+def _resub_chain_on(v: ast.AST, T: str) -> bool:
+    """`re.sub(p, r, re.sub(p2, r2, ... T))` with constant, brace-free patterns and replacements: adds and removes no field."""
+    cur = v
+    n = 0
+    while is_call(cur, 're.sub') and len(cur.args) >= 3 and all(
+            isinstance(a_, ast.Constant) and isinstance(a_.value, str) and not set('{}') & set(a_.value) for a_ in cur.args[:2]):
+        cur = cur.args[2]
+        n += 1
+    return n > 0 and text(cur) == T
+
+
 def _name_or_fresh(f, n, k: ast.AST, s_: str, recv: ast.AST) -> bool:
     """The key of `D.get(k, s)` is, on every path, either `s.name` or the running index of the enclosing enumerate() loop -
     a key no entry has yet, so that `get` hands back its default `s` itself (which shares its own name)."""
@@ -511,8 +529,7 @@ def _beliefs(R, f_escape: Escape):
                 if any(isinstance(o, ast.Constant) and o not in k_ and isinstance(o.value, str) and ('{' in o.value or '}' in o.value) for o in ops) or len(k_) > 1:
                     return (None, f'`{text(d.ast)[:50]}` adds fields in a form not in the idiom table')
                 (ph if k_ else tx).append(d)
-            elif is_call(v, 're.sub') and len(v.args) >= 3 and text(v.args[2]) == T and all(
-                    isinstance(a_, ast.Constant) and isinstance(a_.value, str) and not set('{}') & set(a_.value) for a_ in v.args[:2]):
+            elif _resub_chain_on(f._inline_pure_calls(v), T):
                 continue
             elif isinstance(v, ast.Constant) and isinstance(v.value, str) and not set('{}') & set(v.value):
                 continue
